@@ -8,6 +8,8 @@ type runSpec struct {
 	netns      bool
 	buildFlags []string
 	loglevel   string
+	pkg        string // worker package (default ./cmd/vworker)
+	goarch     string // build and run the worker for this GOARCH (pure-Go workers only)
 	serverBin  bool // needs the real cmds/coredhcp binary (built -race by the driver)
 	parallel   int
 	qBatches   int
@@ -105,6 +107,7 @@ var specs = map[string]*propSpec{
 		runs: []runSpec{
 			{engine: "range", qBatches: 32, qCases: 8, tBatches: 192, tCases: 16},
 			{engine: "rangeconc", race: true, parallel: 8, qBatches: 16, qCases: 10, tBatches: 64, tCases: 30},
+			wireRun(0, 6),
 		},
 		guards: []guard{{"range.unknown_served_while_free", 100, "unknown clients served while addresses are free"}, {"range.unknown_dropped_when_full", 20, "exhaustion reached"},
 			{"range.known_served_when_full", 20, "bound clients served when full"}, {"range.restarts", 20, "restarts"}, {"rangeconc.overlapping_pairs", 500, "real overlap"}},
@@ -155,7 +158,9 @@ var specs = map[string]*propSpec{
 		runs: []runSpec{{engine: "order", netns: true, qBatches: 16, qCases: 200, tBatches: 64, tCases: 1500},
 			// "built-in handlers only ever return a nil response together with stop": every built-in plugin in random
 			// chains under hostile histories (pool exhaustion, foreign server ids, missing client ids ...)
-			{engine: "hostile", netns: true, qBatches: 16, qCases: 2, tBatches: 64, tCases: 12, stall: 6 * time.Minute}},
+			{engine: "hostile", netns: true, qBatches: 16, qCases: 2, tBatches: 64, tCases: 12, stall: 6 * time.Minute},
+			// the real binary with several listeners: they must share one instance of every listed plugin
+			wireRun(2, 8)},
 		guards:      []guard{{"order.chains_checked", 1500, "chains"}, {"order.must_fail", 50, "bad configurations"}, {"order.nil_final", 200, "nil final responses"}, {"order.sent_checked", 1500, "sent datagrams"}, {"order.sent_link_level", 200, "responses sent as link-level frames"}},
 	},
 	"C14": {
@@ -213,7 +218,9 @@ var specs = map[string]*propSpec{
 		rule: "each evaluation draws p in 0..128 (boundary values over-weighted), a /p-aligned base and an address x>=base from bit-pattern classes, and n from 2^k-1/2^k/2^k+1/random; " +
 			"Offset in both argument orders, AddPrefixes and the inverse law are compared with a math/big reference. Non-trivial = overflow verdict expected, borrow/carry across the 64-bit halves, or p in {63,64,65}; distinct by (p, base, x, n)",
 		assumptions: assume("inputs are 16-byte addresses, as the statement says (128-bit)"),
-		runs:        []runSpec{{engine: "arith", loglevel: "fatal", qBatches: 16, qCases: 100, tBatches: 64, tCases: 3000}},
+		runs: []runSpec{{engine: "arith", loglevel: "fatal", qBatches: 16, qCases: 100, tBatches: 64, tCases: 3000},
+			// the same evaluations on a 32-bit build (integer width of shifts and conversions)
+			{engine: "arith", pkg: "./cmd/varith", goarch: "386", qBatches: 8, qCases: 40, tBatches: 32, tCases: 600}},
 		guards: []guard{{"arith.sum_overflow", 100, "AddPrefixes overflow class must be exercised"}, {"arith.offset_overflow", 100, "Offset overflow class"},
 			{"arith.borrow", 100, "borrow across halves"}, {"arith.carry", 100, "carry across halves"}},
 	},
